@@ -88,25 +88,25 @@ pub proof fn axiom_overhead()
 impl Record {
     #[verifier::external_body]
     pub fn new(key: Vec<u8>, value: Vec<u8>, timestamp: u64) -> (r: Record)
-        ensures r.key@ == key@, r.timestamp == timestamp, rec_value_len(&r) == value@.len(),
+        ensures r.key@ == key@, r.timestamp == timestamp, rec_value_len(&r) == value@.len(), r.ttl_expiry.val() == 0,
     {
         unimplemented!()
     }
     #[verifier::external_body]
     pub fn new_with_timestamp_ttl(key: Vec<u8>, value: Vec<u8>, timestamp: u64, ttl_expiry: u64) -> (r: Record)
-        ensures r.key@ == key@, r.timestamp == timestamp, rec_value_len(&r) == value@.len(),
+        ensures r.key@ == key@, r.timestamp == timestamp, rec_value_len(&r) == value@.len(), r.ttl_expiry.val() == ttl_expiry,
     {
         unimplemented!()
     }
     #[verifier::external_body]
     pub fn new_from_bytes(key: Vec<u8>, value: Bytes, timestamp: u64) -> (r: Record)
-        ensures r.key@ == key@, r.timestamp == timestamp, rec_value_len(&r) == value.view().len(),
+        ensures r.key@ == key@, r.timestamp == timestamp, rec_value_len(&r) == value.view().len(), r.ttl_expiry.val() == 0,
     {
         unimplemented!()
     }
     #[verifier::external_body]
     pub fn new_from_bytes_with_ttl(key: Vec<u8>, value: Bytes, timestamp: u64, ttl_expiry: u64) -> (r: Record)
-        ensures r.key@ == key@, r.timestamp == timestamp, rec_value_len(&r) == value.view().len(),
+        ensures r.key@ == key@, r.timestamp == timestamp, rec_value_len(&r) == value.view().len(), r.ttl_expiry.val() == ttl_expiry,
     {
         unimplemented!()
     }
@@ -348,4 +348,10 @@ impl FeoxStore {
 }
 
 pub fn drop<T>(t: T) {
+}
+
+// absolute expiry of a write with a relative TTL: timestamp + ttl_seconds * 10^9, saturating (0 = no expiry)
+pub open spec fn expiry_after(timestamp: u64, ttl_seconds: u64) -> int {
+    let nanos = if ttl_seconds as int * 1_000_000_000 > u64::MAX as int { u64::MAX as int } else { ttl_seconds as int * 1_000_000_000 };
+    if timestamp as int + nanos > u64::MAX as int { u64::MAX as int } else { timestamp as int + nanos }
 }
